@@ -449,9 +449,17 @@ def main(argv: list[str]) -> int:
             v.violation(key, {"kind": "model-history", "cfg": cfg, "history": hst}, r["violation"]["what"])
     # ---- 3. catalogue R: two-step histories (exhaustive in thorough), multi-step over the extended catalogue
     rw = W.all_worlds()
-    pairs = [(a, b) for a in rw for b in rw if a != b]
-    if tier == "quick":
-        rnd.shuffle(pairs); pairs = pairs[:500]
+    # two-step histories over catalogue R (incl. the M contents): a FIXED pseudo-random subset, independent of VERIF_SEED
+    # (490 worlds: the full product has 240 k pairs)
+    genr = random.Random(20260928)
+    pairs = []
+    for _ in range(500 if tier == "quick" else 12000):
+        a = genr.choice(rw)
+        b = dict(a)
+        for m in genr.sample(sorted(b), genr.choice([1, 1, 2, 3])):
+            b[m] = genr.choice(sorted(W.VARIANTS[m]))
+        if a != b:
+            pairs.append((a, b))
     multi = ext_histories(250 if tier == "quick" else 6000)
     rwork = [([a, b], W.CONFIGS[i % 4]) for i, (a, b) in enumerate(pairs)] + [(hs, W.CONFIGS[i % 4]) for i, hs in enumerate(multi)]
     rresults = []
@@ -554,7 +562,7 @@ def main(argv: list[str]) -> int:
         "model_histories": len(hists), "model_history_replays": len(work), "r_two_step": len(pairs), "r_multi_step": len(multi), "t_histories": len(twork), "g_cases": len(gwork), "g_model_drift_count": len(gdrift), "g_model_drift": gdrift[:5],
         "model_drift": [{"cfg": w[1], "drift": d} for w, d in drift[:10]], "model_drift_count": len(drift),
         "rule": "every history TLC emits for Gen_Incremental.cfg (<=3 runs, <=2 edits, <=1 touch over catalogue M) replayed in the store x format "
-                "configurations (quick: rotating, thorough: all four); catalogue R two-step histories (thorough: all 9,120) and a fixed set of 3-4 step "
+                "configurations (quick: rotating, thorough: all four); catalogue R two-step histories (a fixed set of 500 / 12,000) and a fixed set of 3-4 step "
                 "histories over R + stub + package/submodule + file move + extra importers; non-trivial = history with a run in which some but not all modules were re-analysed "
                 "and a run with diagnostics",
         "samples": [{"history": [[e["ev"], e["mod"], e["v"]] for e in work[0][0]], "cfg": work[0][1], "observed": results[0]["obs"]},
